@@ -110,7 +110,7 @@ CHECKS['C07'] = {
     'level': 'proof',
     'explanation': 'update_limit is verified verbatim; execute is verified verbatim against callee contracts; lemma_limit_prefix turns the per-call contract into "first n rows of the unlimited result".',
     'trusted': COMMON_TRUST + ['join branch of execute_select/execute_aggregate* replaced by an assumed stub (rule E3b) because Verus rejects FnMut closures that capture &mut state'],
-    'unproved': ['join branches of execute_select / execute_aggregate (stubbed)'],
+    'unproved': ['LIMIT accounting is proved for the rows a join returns, the rows themselves come from execute_join (unit join)'],
 }
 CHECKS['C06'] = {
     'verus_units': ['engine', 'extract'],
@@ -121,7 +121,7 @@ CHECKS['C06'] = {
     'level': 'proof',
     'explanation': 'admitted(row) := exists a non-NULL column; the contracts say !admitted ==> output empty and *final(self) == *old(self).',
     'trusted': COMMON_TRUST + ['Iterator::any (vx_any stand-in)'],
-    'unproved': ['join branches of execute_select / execute_aggregate (closures capturing &mut: not supported by Verus)'],
+    'unproved': ['state of the sub-engine after a joined line (callback effect not modelled)'],
 }
 CHECKS['C11'] = {
     'verus_units': ['engine', 'aggdispatch', 'aggresult'],
@@ -231,12 +231,12 @@ CHECKS['C05'] = {
     'verus_units': ['join', 'joinload', 'mapping', 'converter', 'parser', 'engine', 'extract'],
     'clause_prefixes': ['c05', 'row.'],
     'technique': 'contract-based deductive verification (Verus): JoinedTableData::add_row / get_joined_row / execute, execute_join, extend_option_result_row and create_joined_column_mapping extracted from /repo; the index is a specified stand-in, the per-partner calls are tracked by ghost state and an in-body assertion',
-    'claim': 'Proof for all rows, indexes and join clauses that the partners of a queried row are exactly the rows of the joined file stored under a key EQUAL to its join value and not NULL, in joined-file order; that the statement is run once per partner in that order and every result row is kept in order; that a row without partner yields nothing for INNER (or where OUTER is not allowed) and exactly one run on an all-NULL partner for OUTER; that a missing join column is an error. Loading the joined file (JoinedTableData::execute) is proved in unit joinload to run every line once, in order, through the SELECT and to store each resulting row under its join value; a missing file / table / column is an error. create_joined_column_mapping (unit mapping) is proved to bind the queried row\'s names first, then every joined column under its plain name unless that name is taken and always under its table-qualified name, and to list for `*` the queried table\'s columns followed by the joined table\'s (a clashing one by its qualified name); lemmas: queried columns keep their values, joined columns are addressable by their qualified names and, when nothing clashes, by their plain names. transform_join (unit converter) assigns the two sides of ON a.x = b.y by table name, not by position: the side of the queried table gives the joiner column, the other side must name the joined table and gives the joined column,  anything else is an error; parse_join (unit parser) records every part of JOIN t::\'file\' ON a.x = b.y from the token at its place; ExecutionEngine::execute_joined_table (unit engine) loads the joined file exactly for statements that have a JOIN clause, or reports the error.',
+    'claim': 'Proof for all rows, indexes and join clauses that the partners of a queried row are exactly the rows of the joined file stored under a key EQUAL to its join value and not NULL, in joined-file order; that the statement is run once per partner in that order and every result row is kept in order; that a row without partner yields nothing for INNER (or where OUTER is not allowed) and exactly one run on an all-NULL partner for OUTER; that a missing join column is an error. Loading the joined file (JoinedTableData::execute) is proved in unit joinload to run every line once, in order, through the SELECT and to store each resulting row under its join value; a missing file / table / column is an error. create_joined_column_mapping (unit mapping) is proved to bind the queried row\'s names first, then every joined column under its plain name unless that name is taken and always under its table-qualified name, and to list for `*` the queried table\'s columns followed by the joined table\'s (a clashing one by its qualified name); lemmas: queried columns keep their values, joined columns are addressable by their qualified names and, when nothing clashes, by their plain names. transform_join (unit converter) assigns the two sides of ON a.x = b.y by table name, not by position: the side of the queried table gives the joiner column, the other side must name the joined table and gives the joined column,  anything else is an error; parse_join (unit parser) records every part of JOIN t::\'file\' ON a.x = b.y from the token at its place; ExecutionEngine::execute_joined_table (unit engine) loads the joined file exactly for statements that have a JOIN clause, or reports the error; the join branches of execute_select / execute_aggregate / execute_aggregate_update run an admitted row through execute_join with the statement\'s own JOIN clause and the loaded table, OUTER allowed for plain queries only, and `join.as_ref().unwrap()` cannot fail (join_consistent).',
     'note': 'Trusted: std HashMap<Value, Vec<Row>> as buckets of value-equal keys in insertion order (VRowIndex; relies on C16), TableDefinition::index_for as a stand-in inside unit join (its body is under contract in unit extract: the first column of that name; itertools find_position behind a stand-in), the nested HashMap behind HashMapColumnProvider (VScopes / VNameMap: scope, then name) and HashSet<String>; HashMapColumnProvider::new / create_table_scope / with_table_keys / get / keys / add_key and ColumnProvider::add_keys_for_table are under contract in unit mapping, in unit join create_joined_column_mapping is a constructor stand-in (its body is proved in unit mapping), FnMut callback: Verus cannot relate results of successive FnMut calls to one closure value, so "rows of the output = results of the calls" is carried by ghost state inside the body (loop invariant + assertion), not by the postcondition.',
     'level': 'proof',
     'explanation': 'partners(data, key) is the spec from the property text; get_joined_row is proved equal to it; execute_join is proved to call the statement for exactly those rows.',
     'trusted': COMMON_TRUST + ['std HashMap bucket semantics'],
-    'unproved': ['join branches of ExecutionEngine::execute_select / execute_aggregate (closures capturing &mut: not supported by Verus)'],
+    'unproved': ['the effect of the statement callback on the sub-engine inside a join (closures capturing &mut are replaced by a callback constructor whose effect is not modelled)'],
 }
 
 CHECKS['C17'] = {
